@@ -10,6 +10,7 @@ package textanalyzer
 // a few bytes of JSON and shrink well.
 
 import (
+	"runtime/debug"
 	"strings"
 	"unicode/utf8"
 
@@ -157,8 +158,8 @@ func c20Rep(t *rapid.T) int {
 
 // c20GenText draws a text. splitter=true adds the code / markdown classes.
 func c20GenText(splitter bool) *rapid.Generator[c20Text] {
-	classes := []string{"empty", "words", "words", "words", "only_seps", "no_seps", "mixed_scripts", "combining",
-		"invalid_utf8", "big", "random", "stems", "soup", "soup"}
+	classes := []string{"words", "soup", "only_seps", "no_seps", "mixed_scripts", "combining", "words", "empty",
+		"invalid_utf8", "big", "random", "stems", "soup", "words", "mixed_scripts", "invalid_utf8", "combining"}
 	if splitter {
 		classes = append(classes, "code", "code", "markdown", "markdown", "words", "no_seps")
 	}
@@ -167,10 +168,10 @@ func c20GenText(splitter bool) *rapid.Generator[c20Text] {
 		out := c20Text{Class: class}
 		add := func(s string, n int) { out.Pieces = append(out.Pieces, c20MkPiece(s, n)) }
 		npieces := func(hi int) int {
-			if rapid.IntRange(0, 3).Draw(t, "short") == 0 {
-				return rapid.IntRange(0, 4).Draw(t, "np")
+			if rapid.IntRange(0, 3).Draw(t, "short") == 2 {
+				return rapid.IntRange(1, 4).Draw(t, "np")
 			}
-			return rapid.IntRange(0, hi).Draw(t, "np")
+			return rapid.IntRange(1, hi).Draw(t, "np")
 		}
 		word := func() string {
 			switch rapid.IntRange(0, 9).Draw(t, "wk") {
@@ -282,7 +283,7 @@ func c20GenText(splitter bool) *rapid.Generator[c20Text] {
 		case "soup":
 			// small alphabet: many repeated substrings, the hard case for the alignment oracle
 			alpha := [][]string{{"a", "b", " "}, {"a", " ", "\n"}, {"ab", "a", "\n\n", " "}, {"no", "not", " ", "n"}, {"x", "\n", "\n## ", "\nfunc"}, {"\u00e9", "e", "\u0301", " "}}[rapid.IntRange(0, 5).Draw(t, "alpha")]
-			n := rapid.IntRange(0, 120).Draw(t, "np")
+			n := rapid.IntRange(1, 120).Draw(t, "np")
 			for i := 0; i < n; i++ {
 				add(c20Pick(t, alpha, "a"), c20Rep(t))
 			}
@@ -309,4 +310,31 @@ func c20GenText(splitter bool) *rapid.Generator[c20Text] {
 		}
 		return out
 	})
+}
+
+// c20Stack is a deterministic rendering of the current stack (file:line of the frames only, no
+// goroutine ids, argument values or pc offsets): rapid only shrinks a failure whose message is
+// identical when the same case is run again.
+func c20Stack() string {
+	var out []string
+	for _, ln := range strings.Split(string(debug.Stack()), "\n") {
+		if !strings.HasPrefix(ln, "\t") {
+			continue
+		}
+		ln = strings.TrimSpace(ln)
+		if i := strings.Index(ln, " +0x"); i >= 0 {
+			ln = ln[:i]
+		}
+		if strings.Contains(ln, "/runtime/") || strings.Contains(ln, "zz_verif_") || strings.Contains(ln, "/rapid@") || strings.Contains(ln, "/testing/") {
+			continue
+		}
+		if i := strings.LastIndex(ln, "/pkg/"); i >= 0 {
+			ln = ln[i+1:]
+		}
+		out = append(out, ln)
+		if len(out) == 8 {
+			break
+		}
+	}
+	return strings.Join(out, " <- ")
 }
